@@ -4958,13 +4958,12 @@ class PyCdlib:
 
         # The directory is added one namespace after the other.  Resolve the
         # Joliet and UDF destinations up front, so that a name or a parent that
-        # is refused there is reported while nothing has been added yet.
+        # is refused there (a duplicate name included) is reported while
+        # nothing has been added yet.
         if joliet_path is not None:
-            self._joliet_name_and_parent_from_path(self._normalize_joliet_path(joliet_path))
+            self._check_joliet_destination(self._normalize_joliet_path(joliet_path))
         if udf_path is not None:
-            if self.udf_root is None:
-                raise pycdlibexception.PyCdlibInvalidInput('Can only specify a UDF path for a UDF ISO')
-            self._udf_name_and_parent_from_path(utils.normpath(udf_path))
+            self._check_udf_destination(utils.normpath(udf_path), True)
 
         num_bytes_to_add = 0
         if iso_path is not None:
